@@ -49,6 +49,16 @@ Theorem C08_getitem_int_slice_full (x : tt R) ix fs shp g :
             forall idx', length idx' = length shp -> entry y idx' = entry x (g idx').
 Proof. exact (getitem_int_slice_full x ix fs shp g). Qed.
 
+(* a leading / trailing Ellipsis is exactly the tuple with the missing full slices written out: the composite theorem applies to
+   the expanded tuple (the tensor branch expands no Ellipsis elsewhere; two of them are rejected, C18) *)
+Theorem C08_getitem_leading_ellipsis (x : tt R) (t : list ixitem) : forallb (fun it => negb (is_ell it)) t = true ->
+  getitem_tuple x (IEll :: t) =
+  getitem_tuple x (repeat full_slice (length x + 1 + length (filter is_none t) - S (length t)) ++ t).
+Proof. exact (getitem_leading_ellipsis x t). Qed.
+Theorem C08_getitem_trailing_ellipsis (x : tt R) (t : list ixitem) it0 : forallb (fun it => negb (is_ell it)) (it0 :: t) = true ->
+  getitem_tuple x ((it0 :: t) ++ [IEll]) =
+  getitem_tuple x ((it0 :: t) ++ repeat full_slice (length x + 1 + length (filter is_none (it0 :: t)) - S (S (length t)))).
+Proof. exact (getitem_trailing_ellipsis x t it0). Qed.
 End C08.
 Print Assumptions C08_apply_mask_full.
 Print Assumptions C08_remaps_entry.
@@ -56,3 +66,5 @@ Print Assumptions C08_reduce_dims_full.
 Print Assumptions C08_slice_pos_in_range.
 Print Assumptions C08_norm_int_in_range.
 Print Assumptions C08_getitem_int_slice_full.
+Print Assumptions C08_getitem_leading_ellipsis.
+Print Assumptions C08_getitem_trailing_ellipsis.
